@@ -59,7 +59,12 @@ def correspond(model_ok, res):
     hist = []
     for _ in range(n // 3):
         t0 = g.tree(r.randrange(1, 4))
-        naming.auto_name(t0)
+        try:
+            naming.auto_name(t0)
+        except Exception as e:  # the property says names are always produced
+            res.failures.append(({"tree": gentree.describe(t0)[:2000], "exception": repr(e),
+                                  "where": "first naming of a history"}, None))
+            continue
         ops = [nd for _, nd in gentree.all_nodes(t0) if isinstance(nd, T.BaseOperation)]
         k = r.random()
         if ops and k < 0.4:
